@@ -6,6 +6,7 @@ from flow import format_calls, template_text, root_of_operand, body_is_external,
 from grammar import Grammar, Hole, tokenize, TokenMatcher
 import rules.c14 as c14
 import panics as P
+from flow import site_is_external
 
 META = {
     "engine": "mirfacts+srcfacts+rules",
@@ -61,6 +62,10 @@ def exhaustive(F, rep):
                 continue
             if len({tgt for _, tgt in t["targets"]}) == 1:
                 continue  # drop elaboration: every variant goes to the same block
+            tgts = {tgt for _, tgt in t["targets"]} | {t["otherwise"]}
+            if all(b.term(x)["k"] in ("drop", "goto", "return", "unreachable", "resume") for x in tgts) and \
+                    any(b.term(x)["k"] == "drop" and not b.stmts(x) for x in tgts) and not any(b.term(x)["k"] == "call" for x in tgts):
+                continue  # drop elaboration of a partially moved enum at the end of a scope: the edges only drop what is left
             n += 1
             ok = b.term(t["otherwise"])["k"] == "unreachable" and len(t["targets"]) == nv
             rep.ob("R1", f"{b.short}:{ety.split('::')[-1]}", ok,
@@ -117,7 +122,45 @@ def row_loops(F):
                     aty = " ".join(t.get("aty") or [])
                     if "SchwabTransactionsItem" in aty and "IntoIter" in aty:
                         out.append((b, h, blks))
+    if not out:
+        # internal iteration: `rows.into_iter().try_for_each(|row| collector.accept(row))` — the closure is the loop body, one
+        # call of it is one iteration (header None); `Ok(())` / `ControlFlow::Continue` / unit returned = next row
+        for b in conv_bodies(F):
+            tb = None
+            for i, t in b.calls():
+                if parse_callee(t["callee"])[2] not in ("try_for_each", "for_each") or len(t["args"]) < 2:
+                    continue
+                aty = " ".join(t.get("aty") or [])
+                if "SchwabTransactionsItem" not in aty or "IntoIter" not in aty:
+                    continue
+                tb = tb or Terms(F, b, inline_depth=0)
+                clo = tb.operand(t["args"][1])
+                if isinstance(clo, tuple) and clo and clo[0] == "closure" and clo[1] in F.bodies:
+                    cb = F.bodies[clo[1]]
+                    out.append((cb, None, set(cb.reachable())))
     return out
+
+
+def _row_kind_and_fields(row):
+    """An output row says BUY or SELL either by its variant (`CgtTransaction::Buy {..}`) or by an enum-valued field of the row or
+    of the struct it wraps (`CgtTransaction::Trade(CgtTrade { side: TradeSide::Buy, .. })`); the remaining fields are the row's
+    data, wherever they sit. -> (kind or None, [(field name, term)])"""
+    kind = row[2] if row[2] in ("Buy", "Sell") else None
+    fields = []
+
+    def walk(agg, top):
+        nonlocal kind
+        for fname, fterm in agg[3]:
+            if isinstance(fterm, tuple) and fterm and fterm[0] == "agg" and fterm[2] in ("Buy", "Sell") and not fterm[3]:
+                if kind is None:
+                    kind = fterm[2]
+                continue
+            if isinstance(fterm, tuple) and fterm and fterm[0] == "agg" and fname.isdigit() and fterm[3] and not str(fterm[3][0][0]).isdigit():
+                walk(fterm, False)       # the wrapped struct
+                continue
+            fields.append((fname, fterm))
+    walk(row, True)
+    return kind, fields
 
 
 def arm_accounting(F, rep):
@@ -140,7 +183,16 @@ def arm_accounting(F, rep):
         return any(hb.local_ty(k + 1).replace("'_ ", "").startswith("&mut") for k in range(hb.argc)) or any(rt in hb.ret for rt in row_types)
     es = EffSyn(F, tracked=lambda ty: "CgtTransaction" in ty or "alloc::string::String" in ty, place_type=_place_type, helper_ok=helper_ok)
     try:
-        alts = es.run(b, start=header, stops=(header,))
+        if header is not None:
+            alts = es.run(b, start=header, stops=(header,))
+        else:
+            alts = es.run(b, start=0, stops=())
+            for a in alts:
+                if a.exit == "return":
+                    r = a.ret
+                    good = r is None or (isinstance(r, tuple) and r and (r[0] in ("unit",) or (r[0] == "agg" and r[2] in ("Ok", "Continue")) or
+                                                                      (r[0] == "tuple" and not r[1])))
+                    a.exit = "stop" if good else "error-return"
     except TooManyPaths as e:
         rep.unresolved("R2", "row-paths", str(e))
         return
@@ -185,10 +237,12 @@ def arm_accounting(F, rep):
                         rep.ob("R2", f"{label}:row-shape", False, f"pushed value is not a row literal: {show(row)[:80]}", rsite, key=f"R2:{label}:row-shape")
                         continue
                     want_variant = "Sell" if names == ["Sell"] else "Buy"
-                    rep.ob("R2", f"{label}:row-kind", row[2] == want_variant,
-                           f"{label} row becomes a {row[2].upper()} line" if row[2] == want_variant else
-                           f"{label} input row is emitted as CgtTransaction::{row[2]}", rsite, key=f"R2:{label}:row-kind")
-                    for fname, fterm in row[3]:
+                    kind, fields = _row_kind_and_fields(row)
+                    rep.ob("R2", f"{label}:row-kind", kind == want_variant,
+                           f"{label} row becomes a {kind.upper()} line" if kind == want_variant else
+                           f"{label} input row is emitted as CgtTransaction::{row[2]}" + (f" with side {kind}" if kind not in (row[2], None) else ""),
+                           rsite, key=f"R2:{label}:row-kind")
+                    for fname, fterm in fields:
                         if fname == "comment":
                             continue
                         okf, why = _field_prov(fname, fterm, names)
@@ -222,7 +276,9 @@ def arm_accounting(F, rep):
         rep.unresolved("R2", "dividend-rows", "no Dividend row is pushed by the row loop")
     # first pass: withholdings accumulate |amount| under (date, symbol)
     from rules.c08 import _R
-    rg = _R(F).region(b, depth=1)
+    # (for an internally iterated row loop the first pass sits in the function that owns the closure)
+    pass_root = F.bodies[b.parent] if header is None and b.parent in F.bodies else b
+    rg = _R(F).region(pass_root, depth=2 if header is None else 1)
     acc_ok = False
     for it in rg.items:
         u = it["term"]
@@ -477,8 +533,17 @@ def output_grammar(ctx, rep):
             rep.unresolved("R3", fb.short, "line formatter is never called")
         for cb, i, t in sites:
             ctb = Terms(F, cb, inline_depth=0)
-            args = [ctb.operand(a) for a in t["args"]]
-            for k, alt in enumerate(fcs):       # every string the formatter can return is one whole line
+            args0 = [ctb.operand(a) for a in t["args"]]
+            # an argument computed by a function that returns one of finitely many constant strings (`side.keyword()` →
+            # "BUY" | "SELL") stands for each of them in turn
+            arg_sets = [[args0]]
+            for ai, a in enumerate(args0):
+                cs = _const_str_set(F, a)
+                if cs and len(cs) <= 4:
+                    arg_sets = [[al[0][:ai] + [("str", s)] + al[0][ai + 1:]] for al in arg_sets for s in cs]
+            if kind == "trade":
+                _row_kind_printed(F, rep, fb, cb, t, args0)
+            for args, k, alt in [(al[0], k, alt) for al in arg_sets for k, alt in enumerate(fcs)]:       # every string the formatter can return is one whole line
                 label = "base" if k == 0 else "with-clause"
                 parts = _subst_parts(F, fb, alt, args)
                 toks, glued = tokenize(parts)
@@ -491,6 +556,91 @@ def output_grammar(ctx, rep):
                        f"converter line `{txt}` is not a sentence of the DSL grammar" + (f" ({bad[0].label})" if bad else ""),
                        cb.loc(t["sp"]), key=f"R3:{fb.short}:{label}:not-derivable")
     return lf
+
+
+def _variant_const_map(F, f):
+    """f maps the variants of its (enum) argument to constant strs: -> {variant name: str} or None"""
+    if len(f.blocks) > 30 or f.argc < 1:
+        return None
+    tb = Terms(F, f, inline_depth=0)
+    for s in f.reachable():
+        t = f.term(s)
+        if t["k"] != "switch":
+            continue
+        p = op_place(t["discr"])
+        d = f.defs().get(p["l"], []) if p is not None else []
+        if not (len(d) == 1 and d[0][0] == "assign" and d[0][3]["rv"]["k"] == "discr"):
+            continue
+        ety = _place_type(F, f, d[0][3]["rv"]["p"])
+        adt = F.adts.get(ety)
+        if not adt:
+            continue
+        names = [v["name"] for v in adt["variants"]]
+        out = {}
+        for v, tgt in t["targets"]:
+            others = set()
+            for v2, t2 in t["targets"]:
+                if t2 != tgt:
+                    others |= f.reach_from(t2)
+            only = (f.reach_from(tgt) - others) | {tgt}
+            vals = set()
+            for i, si, st in f.assigns():
+                if i in only and st["lhs"]["l"] == 0 and not place_proj(st["lhs"]):
+                    k = op_const(st["rv"].get("op", {})) if st["rv"]["k"] == "use" else None
+                    if k is not None and "str" in k:
+                        vals.add(k["str"])
+                    else:
+                        vt = tb.rvalue(st["rv"])
+                        while isinstance(vt, tuple) and vt and vt[0] in ("ref", "deref") and isinstance(vt[-1], tuple):
+                            vt = vt[-1]
+                        if isinstance(vt, tuple) and vt and vt[0] == "str":
+                            vals.add(vt[1])
+            if len(vals) == 1 and v.isdigit() and int(v) < len(names):
+                out[names[int(v)]] = next(iter(vals))
+        if out:
+            return out
+    return None
+
+
+def _row_kind_printed(F, rep, fb, cb, t, args):
+    """R3 (the line says what the row is): at every call of the trade-line formatter the action keyword agrees with the kind of the
+    row the other arguments are taken from — a constant next to fields of `CgtTransaction::Sell {..}` must be "SELL"; a keyword
+    computed from the row's side (`side.keyword()`) must map Buy to "BUY" and Sell to "SELL"."""
+    variants = {x[2] for a in args for x in subterms(a) if isinstance(x, tuple) and len(x) == 3 and x[0] == "dc" and x[2] in ("Buy", "Sell")}
+    for a in args:
+        if isinstance(a, tuple) and a and a[0] == "str" and a[1].upper() in ("BUY", "SELL") and len(variants) == 1:
+            v = next(iter(variants))
+            ok = a[1].upper() == v.upper()
+            rep.ob("R3", f"{cb.short}:{v}-row-keyword", ok, f"a {v} row is written with the keyword {a[1]}" if ok else
+                   f"a {v} row is written with the keyword `{a[1]}`: purchases and disposals are swapped in the output", cb.loc(t["sp"]),
+                   key=f"R3:{cb.short}:{v}:keyword")
+        if isinstance(a, tuple) and a and a[0] == "call" and a[1] in F.bodies and _const_str_set(F, a):
+            vm = _variant_const_map(F, F.bodies[a[1]])
+            if vm:
+                for v, s in sorted(vm.items()):
+                    if v in ("Buy", "Sell"):
+                        ok = s.upper() == v.upper()
+                        rep.ob("R3", f"{F.bodies[a[1]].short}:{v}-keyword", ok, f"side {v} is written as {s}" if ok else
+                               f"side {v} is written with the keyword `{s}`: purchases and disposals are swapped in the output",
+                               F.bodies[a[1]].loc(), key=f"R3:{F.bodies[a[1]].short}:{v}:keyword")
+
+
+def _const_str_set(F, a):
+    """the constant strings a term can be when it is a call of a workspace function whose every return is a constant str"""
+    from mir import summary
+    if not (isinstance(a, tuple) and a and a[0] == "call" and a[1] in F.bodies):
+        return None
+    r = summary(F, a[1], 0)
+    alts = r[1] if isinstance(r, tuple) and r and r[0] == "phi" else (r,)
+    out = []
+    for x in alts:
+        while isinstance(x, tuple) and x and x[0] in ("ref", "deref") and isinstance(x[-1], tuple):
+            x = x[-1]
+        if isinstance(x, tuple) and x and x[0] == "str" and isinstance(x[1], str):
+            out.append(x[1])
+        else:
+            return None
+    return sorted(set(out)) or None
 
 
 def _subst_parts(F, fb, fc, args):
@@ -517,6 +667,67 @@ def _subst_parts(F, fb, fc, args):
     return out
 
 
+def _assembled_output(F, rep, b, tb, lf, headers):
+    """The output is not pushed line by line but assembled by an iterator expression that is collected and joined
+    (`once(header).chain(rows.iter().flat_map(Row::to_lines)).collect().join("\n")`): every String the expression can yield must
+    come from a line formatter or the header — directly, or through a function mapped over the rows whose own Strings do.
+    Returns the number of line producers found (0 when this spelling is not present)."""
+    joins = [(i, t) for i, t in b.calls() if parse_callee(t["callee"])[2] in ("join", "concat") and t["args"]]
+    n = 0
+    for i, t in joins:
+        recv = tb.operand(t["args"][0])
+        direct = [x[1] for x in subterms(recv) if isinstance(x, tuple) and x and x[0] == "call" and x[1] in F.bodies and F.bodies[x[1]].ret == "alloc::string::String"]
+        mapped = [x[1] for x in subterms(recv) if isinstance(x, tuple) and x and x[0] == "fn" and x[1] in F.bodies]
+        if not any(p in lf or p in headers for p in direct + mapped) and not mapped:
+            continue
+        for pid in direct:
+            n += 1
+            ok = pid in lf or pid in headers
+            rep.ob("R3", f"convert:assembled:{pid[-40:]}", ok, f"output text produced by {pid.split('::')[-1]}" if ok else
+                   f"`{pid.split('::')[-1]}` contributes text to the DSL output but is not a line formatter", b.loc(t["sp"]), key=f"R3:convert:raw-line:{pid}")
+        for fid in mapped:
+            fb = F.bodies[fid]
+            if fb.ret == "alloc::string::String":
+                n += 1
+                ok = fid in lf or fid in headers
+                rep.ob("R3", f"convert:assembled:{fid[-40:]}", ok, f"output lines produced by {fid.split('::')[-1]}" if ok else
+                       f"`{fid.split('::')[-1]}` is mapped over the rows but is not a line formatter", b.loc(t["sp"]), key=f"R3:convert:raw-line:{fid}")
+                continue
+            if "String" not in fb.ret:
+                continue
+            fam = [fb] + [F.bodies[x] for x in F.children(fb.id)]
+            for x in fam:
+                xt = None
+                for j, u in x.calls():
+                    cal = u["callee"]
+                    hb = F.bodies.get(cal)
+                    items = [cal] if hb is not None and hb.ret == "alloc::string::String" else []
+                    xt = xt or Terms(F, x, inline_depth=0)
+                    for a in u["args"]:
+                        at = xt.operand(a)
+                        items += [y[1] for y in subterms(at) if isinstance(y, tuple) and y and y[0] == "fn" and y[1] in F.bodies and F.bodies[y[1]].ret == "alloc::string::String"]
+                    for pid in items:
+                        n += 1
+                        ok = pid in lf or pid in headers
+                        rep.ob("R3", f"{fb.short}:line:{pid[-40:]}", ok, f"row line produced by {pid.split('::')[-1]}" if ok else
+                               f"`{pid.split('::')[-1]}` produces an output line but is not a line formatter", x.loc(u["sp"]), key=f"R3:convert:raw-line:{pid}")
+                    raw = parse_callee(cal)[2] in ("format", "to_string", "to_owned", "from", "into") and "String" in " ".join(u.get("aty") or []) + cal and hb is None \
+                        and not site_is_external(x, u) and cal.startswith(("alloc::fmt::format", "alloc::string", "<alloc::string", "<str as", "alloc::str"))
+                    if raw:
+                        n += 1
+                        rep.ob("R3", f"{fb.short}:raw-string", False, f"`{fb.short}` builds an output line itself ({cal.split('::')[-1]}) instead of using a line formatter",
+                               x.loc(u["sp"]), key=f"R3:convert:raw-line:{fb.short}")
+    return n
+
+
+def _closure_feeds_covered(F, hb, x, covered):
+    """x is a closure of the header builder whose value (`cond.then(|| format!(..))`) is an element of a collection that is wholly
+    passed through the comment formatter: the closure id occurs in the receiver term of the covering map"""
+    if x.kind != "closure":
+        return False
+    return bool(getattr(hb, "_covered_recv", None)) and any(isinstance(y, tuple) and y and y[0] == "closure" and y[1] == x.id for r in hb._covered_recv for y in subterms(r))
+
+
 def output_pushes(F, rep, lf):
     """every line pushed to the output of convert() comes from a line formatter or the header"""
     conv = [b for b in conv_bodies(F) if b.id.endswith("::convert") and "BrokerConverter" in b.id]
@@ -531,7 +742,9 @@ def output_pushes(F, rep, lf):
         if hb.kind == "fn" and hb.ret == "alloc::string::String" and hb.id not in lf:
             fam = [hb] + [F.bodies[x] for x in F.children(hb.id)]
             ncf = sum(1 for x in fam for _, t in x.calls() if t["callee"] in comment_ids)
-            if ncf >= 2:
+            # a header builder wraps its notes in the comment formatter: several call sites, or one inside the closure that is
+            # mapped over the notes — and convert() itself calls it
+            if ncf >= 2 or (ncf >= 1 and hb.id in F.callgraph().get(b.id, ()) and any(x.kind == "closure" for x in fam[1:])):
                 headers.add(hb.id)
     n = 0
     from rules.c08 import _R
@@ -569,6 +782,8 @@ def output_pushes(F, rep, lf):
                    f"output line produced by {src.split('::')[-1]}" if ok else
                    f"a raw string ({show(v)[:60]}) is pushed to the DSL output without a line formatter", hb.loc(t["sp"]),
                    key=f"R3:convert:raw-line:{(src or 'expr')}")
+    if n == 0:
+        n = _assembled_output(F, rep, b, tb, lf, headers)
     rep.count("output_line_pushes", n)
     if n < 4:
         rep.unresolved("R3", "pushes", f"only {n} output-line pushes found in convert")
@@ -608,8 +823,22 @@ def output_pushes(F, rep, lf):
                         covered |= {y for y in subterms(xt.operand(a)) if isinstance(y, tuple) and y and y[0] == "call" and y[1].endswith("alloc::fmt::format")}
                 if t["callee"].endswith("alloc::fmt::format"):
                     allf.append((x, t, xt.call_term(t)))
+                # `notes.into_iter().flatten().map(|note| format_comment(&note) + "\n")`: everything in the mapped collection goes
+                # through the comment formatter when the closure hands its own parameter to it
+                if parse_callee(t["callee"])[2] in ("map", "for_each", "flat_map") and len(t["args"]) >= 2:
+                    clo = xt.operand(t["args"][1])
+                    if isinstance(clo, tuple) and clo and clo[0] == "closure" and clo[1] in F.bodies:
+                        cb = F.bodies[clo[1]]
+                        ct = Terms(F, cb, inline_depth=0)
+                        wraps = any(u["callee"] in comment_ids and any(
+                            isinstance(z, tuple) and z and z[0] == "param" and z[1] >= 1 for a in u["args"] for z in subterms(ct.operand(a))) for _, u in cb.calls())
+                        if wraps:
+                            hb._covered_recv = getattr(hb, "_covered_recv", []) + [xt.operand(t["args"][0])]
+                            covered |= {y for y in subterms(xt.operand(t["args"][0])) if isinstance(y, tuple) and y and y[0] == "call" and y[1].endswith("alloc::fmt::format")}
+        # formats made inside a closure whose result feeds such a collection (`.then(|| format!(..))`) are reached through it
         for x, t, term in allf:
-            ok = term in covered
+            ok = term in covered or (x.kind == "closure" and any(isinstance(y, tuple) and y and y[0] == "closure" and y[1] == x.id for cv in [covered] for z in cv for y in subterms(z))) \
+                or _closure_feeds_covered(F, hb, x, covered)
             rep.ob("R3", f"{hb.short}:formatted-text-is-a-comment", ok, "text formatted for the header is emitted through the comment formatter" if ok else
                    "the header builder formats a line that does not pass through the comment formatter", x.loc(t["sp"]),
                    key=f"R3:{hb.short}:raw-header-line")
